@@ -29,7 +29,8 @@ type Ctx struct {
 	Toolchain string
 	Tier      string
 
-	cg            *callgraph.Graph
+	cg        *callgraph.Graph
+	cha       *callgraph.Graph
 	fnInfo        map[*ssa.Function]*fnInfo
 	callersOf     map[*ssa.Function][]ssa.CallInstruction
 	allFuncs      map[*ssa.Function]bool
@@ -41,8 +42,10 @@ type Ctx struct {
 	bsums         map[*ssa.Function]*boundsSum
 	bsumBusy      map[*ssa.Function]bool
 	nonNeg        map[string]int
+	fNonNeg       map[string]int
 	decScope      []*ssa.Function
 	actScope      []*ssa.Function
+	nilUnsafe     map[*ssa.Function]bool
 	flows         map[*ssa.Function]*lockFlowResult
 }
 
@@ -270,11 +273,19 @@ func (c *Ctx) MethodOf(t types.Type, name string) *ssa.Function {
 	return nil
 }
 
+// chaGraph: class-hierarchy call graph (over-approximate); used where a larger scope is the safe direction.
+func (c *Ctx) chaGraph() *callgraph.Graph {
+	if c.cha == nil {
+		c.cha = cha.CallGraph(c.Prog)
+	}
+	return c.cha
+}
+
 func (c *Ctx) callgraph() *callgraph.Graph {
 	if c.cg != nil {
 		return c.cg
 	}
-	g := cha.CallGraph(c.Prog)
+	g := c.chaGraph()
 	c.CGKind = "cha"
 	if c.Tier == "thorough" {
 		g = vta.CallGraph(c.allFuncs, g)
